@@ -110,7 +110,7 @@ def linear(case, ctx):
 @st.composite
 def _spectra_cases(draw):
     c = draw(_base())
-    c["a"] = draw(gen.record_specs(min_n=2, max_n=MAX_N))
+    c["a"] = draw(gen.record_specs(min_n=2, max_n=MAX_N, allow_int=["view", "negstride", "readonly"]))
     c["alpha"] = draw(gen.scalars())
     c["k"] = draw(st.integers(-20, 20))
     return c
@@ -136,7 +136,7 @@ def spectra_scale(case, ctx):
     bu, bv, ba = ref.perturbation_bounds(err_in, dt, n, T, xi)
     amax = float(np.max(np.abs(a)))
     for fname, f in (("pseudo_response_spectra", sdof.pseudo_response_spectra), ("true_response_spectra", sdof.true_response_spectra)):
-        base = ctx.lib(f, a, dt, P, xi)
+        base = ctx.lib(f, gen.as_container(case["a"], a), dt, P, xi)
         neg = ctx.lib(f, -a, dt, P, xi)
         p2 = ctx.lib(f, a * 2.0 ** k, dt, P, xi)
         gen_ = ctx.lib(f, a * al, dt, P, xi)
